@@ -8,6 +8,7 @@ import c18_lib as L
 import c18_ref as REF
 import c18_wrap as W
 import c18_scope as SC
+import c18_special as SP
 from framework import pmap
 
 ID = 'C18'
@@ -659,9 +660,29 @@ def scopes(ctx):
     ctx.notes['scope_cases'] = len(results)
 
 
+def specials(ctx):
+    """captures that go through coercion (signatures, with-items, dict pairs, handlers, ...): C01 incl. positions, counts,
+    surrounding text, a second operation; multi-byte text throughout (deterministic product)"""
+    cs = SP.cases()
+    results = pmap(SP.run_case, cs, chunksize=max(1, len(cs) // 16))
+    for r in results:
+        c = r['case']
+        if 'skip' in r:
+            ctx.tally('special_skipped', r['skip'])
+            continue
+        ctx.count(('special', c['src'], c['pat'], c['tmpl'], c['nested']), r.get('nsub', 0) > 0)
+        ctx.tally('special_kind', c['kind'] + (':refused ' + r['refused'] if 'refused' in r else ''))
+        if 'fail' in r:
+            ctx.fail(f'C18|special|{c["kind"]}|{"nested" if c["nested"] else "flat"}|{r["fail"][0]}',
+                     f'sub({c["pat"]}, {c["tmpl"]!r}, nested={c["nested"]}) on {c["src"]!r}: {r["fail"][1]}',
+                     {'special_case': c, 'src': c['src'], 'pat': c['pat'], 'tmpl': c['tmpl'], 'result_src': r.get('out')})
+    ctx.notes['special_cases'] = len(results)
+
+
 def sweep(ctx):
     wrappers(ctx)
     scopes(ctx)
+    specials(ctx)
     jobs = sweep_jobs(ctx, 700 if ctx.quick else 7500, True)
     results = pmap(_sweep_case, jobs, chunksize=max(1, len(jobs) // 32))
     n = _report(ctx, results)
@@ -689,6 +710,12 @@ def replay(ctx, data):
     w = data.get('witness')
     if not w:
         print('replay names a broken obligation:', data.get('broken'))
+        return
+    if 'special_case' in w:
+        c = w['special_case']
+        r = SP.run_case(c)
+        if 'fail' in r:
+            ctx.fail(f'C18|special|{c["kind"]}|{"nested" if c["nested"] else "flat"}|{r["fail"][0]}', r['fail'][1], w)
         return
     if 'scope_case' in w:
         r = SC.run_case(w['scope_case'])
